@@ -52,6 +52,8 @@ def c10 : List String := Id.run do
         | none => true)
       let badNames := bad.map (fun i => match intrinsicFeatures[i]? with | some (n, fs) => s!"{n} needs {repr fs}" | none => s!"#{i} (unknown)")
       out := out ++ [s!"{repr r.reg} {repr r.ty} {repr r.method}: the dispatcher verifies {repr (verifiedForReg r.reg)} for this backend, but the method uses {badNames} / calls {repr (r.calls.filter (fun c => !subsetB (verifiedForReg c.1) (allowedFor r.reg)))} — a CPU with exactly the verified features executes an instruction it lacks"]
+  for b in buildScripts do
+    out := out ++ [s!"the crate has a build script ({b.1}) that emits the cfgs {b.2}: compile-time answers of the availability checks can then depend on the build machine instead of the target"]
   for r in archRefs do
     if !((noStdBuilds ++ stdBuilds).all (fun b => !compiledIn b r)) then
       let needs := match intrinsicFeatures.find? (fun x => x.1 == r.path) with
